@@ -1,7 +1,7 @@
 """C04 — a pre-existing handler is chained: once per delivery, first, same arguments (structural part)."""
 import re
 from .. import cfg
-from ..anchors import handler, is_user_code
+from ..anchors import handler, is_user_code, action_site
 from ..conds import facts_at, truth
 from ..facts import keyname, AnchorLost
 from ..flow import flow, deps, deep_strip, strip, show, mentions, fold
@@ -44,7 +44,9 @@ def rule_a(ctx):
         return h, ex, None, other
     cbb, ct = slot_calls[0]
     ctx.check(not cfg.in_cycle(h, cbb), rid, "chain-not-in-loop", "the chained call is outside any loop", ct["sp"], "previous handler would run once per action")
-    ac = action_calls(F, h)
+    _, found = action_site(F)
+    # blocks of the dispatcher through which actions are reached (the virtual call itself or the call of the helper containing it)
+    ac = [((chain[0][1] if chain else abb), at) for (A, abb, at, chain) in found]
     dom = cfg.dominators(h)
     okk = bool(ac) and all(cbb in dom[abb] and cbb != abb for abb, _ in ac)
     ctx.check(okk, rid, "chain-before-actions", "the chained call dominates every action call", ct["sp"], {"actions": [t["sp"] for _, t in ac]})
